@@ -31,6 +31,20 @@
 #ifndef VF_PSTEP
     #define VF_PSTEP 1
 #endif
+// compile-cost knobs: how many pattern->pattern conversion targets per source pattern (extents / mapping / mdspan level)
+// and whether the etl::static_vector-backed mdarray variants are instantiated (props choose smaller values for the slices)
+#ifndef VF_CONV_EXT
+    #define VF_CONV_EXT 1000
+#endif
+#ifndef VF_CONV_MAP
+    #define VF_CONV_MAP 4
+#endif
+#ifndef VF_CONV_MD
+    #define VF_CONV_MD 3
+#endif
+#ifndef VF_SVEC
+    #define VF_SVEC 1
+#endif
 
 namespace c19 {
 
